@@ -1,18 +1,18 @@
-\* thorough: peers, the ticket-bearing command, wait + exec; exhaustive
+\* quick: 2 callers wait_for_server/peer_message asking for a timeout below or above the library's 10 s; the clock is moved to just before and past each deadline, a reply on either side; exhaustive, graph dumped, edge cover replayed
 SPECIFICATION Spec
 CONSTANTS
   Callers = {1, 2}
-  Specs <- SpecsP
-  Msgs <- MsgsP
-  Apis = {"wait", "exec"}
-  Timeouts = {"short"}
-  MaxElapse = 0
-  MaxFeeds = 2
-  MaxBatch = 2
-  MaxCancel = 1
+  Specs <- SpecsT
+  Msgs <- MsgsT
+  Apis = {"wait"}
+  Timeouts = {"short", "long"}
+  MaxElapse = 1
+  MaxFeeds = 1
+  MaxBatch = 1
+  MaxCancel = 0
   MaxDue = 1
   MaxSlow = 0
-  MaxSendFail = 1
+  MaxSendFail = 0
   SendHops = 4
   SkipDoneFutures = TRUE
   GuardSetException = TRUE
